@@ -11,6 +11,7 @@ import FitModel.Generated.ProfileTables
 -- @family typedid Drv.Typed.hID
 -- @family typednil Drv.Typed.hNil
 -- @family typedseq Drv.Typed.hSeq
+-- @family typedmark Drv.Typed.hMark
 /-!
 Driver for the family `typed` (C13): the generic model `Fit.Typed.ofMesg` / `toMesg` instantiated with the
 regenerated per-message tables (`Fit.Gen.Mesgdef.tables`); the standard factory's `CreateField` is read from the
@@ -173,6 +174,20 @@ def resetReuse (args : List String) : String :=
     | _, _, _ => "bad-op"
   | _ => "bad-op"
 
+/-- `typedmark <Name> <struct> <k> <0|1>`: `ok := s.MarkAsExpandedField(k, flag)` → `ok=<0|1> <struct>` -/
+def markOp (args : List String) : String :=
+  match args with
+  | [name, s, k, fl] =>
+    match tableOf name with
+    | none => "bad-op"
+    | some T =>
+      match parseStruct T s, parseDec k 256, fl with
+      | some st, some k, "0" | some st, some k, "1" =>
+        let r := markAsExpanded T st k (fl == "1")
+        s!"ok={if r.2 then 1 else 0} " ++ printStruct T r.1
+      | _, _, _ => "bad-op"
+  | _ => "bad-op"
+
 def hMS : Handler := modelOnly (fromMesg true false)
 def hRT : Handler := fun r =>
   match r.mode with
@@ -194,5 +209,6 @@ def hID : Handler := fun r =>
   | .prop => "n/a"
 def hNil : Handler := modelOnly nilStruct
 def hSeq : Handler := modelOnly resetReuse
+def hMark : Handler := modelOnly markOp
 
 end Drv.Typed
